@@ -633,7 +633,7 @@ func vPanicSite() string {
 				ln = ln[:i]
 			}
 			sites = append(sites, strings.TrimPrefix(ln, "/repo/"))
-			if len(sites) == 3 {
+			if len(sites) == 6 {
 				break
 			}
 		}
